@@ -21,3 +21,12 @@ Definition geometry_ok (tol a b g al1 be1 al1' be1' psi : R) : Prop :=
 Ltac geometry_tac :=
   cbv [geometry_ok m2_close mmul Euler Rz Ry cis Cmult Cplus RtoC fst snd];
   repeat split; interval with (i_prec 90).
+
+(* C02 tie, layer "alignment": the alignment element of a chain under convention Y is the one under convention X
+   times a matrix G common to all chains:  W_X * G = W_Y  (Euler angles as the code stores them in aligned_angle) *)
+Definition align_ok (tol ax bx gx ga gb gg ay bty gy : R) : Prop :=
+  m2_close tol (mmul (Euler ax bx gx) (Euler ga gb gg)) (Euler ay bty gy).
+
+Ltac align_tac :=
+  cbv [align_ok m2_close mmul Euler Rz Ry cis Cmult Cplus RtoC fst snd];
+  repeat split; interval with (i_prec 90).
